@@ -8,6 +8,8 @@
 #define SPECTRA_SEARCH_SPACE_H
 
 #include <Eigen/Core>
+#include <Eigen/QR>
+#include <cmath>      // std::abs, std::sqrt
 #include <algorithm>  // std::min
 
 #include "RitzPairs.h"
@@ -82,9 +84,44 @@ public:
     /// \param new_vect Matrix of new correction vectors
     void extend_basis(const Matrix& new_vect)
     {
-        Index left_cols_to_skip = size();
-        append_new_vectors_to_basis(new_vect);
-        twice_is_enough_orthogonalisation(m_basis_vectors, left_cols_to_skip);
+        using std::abs;
+        using std::sqrt;
+
+        const Index nrows = m_basis_vectors.rows();
+        // The basis cannot get more columns than rows
+        const Index room = nrows - size();
+        if (room <= 0 || new_vect.cols() == 0)
+            return;
+
+        // Normalize the new vectors (zero columns stay zero),
+        // and project out the current basis, twice is enough
+        Matrix cand = new_vect;
+        for (Index j = 0; j < cand.cols(); j++)
+        {
+            const Scalar nrm = cand.col(j).norm();
+            if (nrm > Scalar(0))
+                cand.col(j) /= nrm;
+        }
+        for (int pass = 0; pass < 2; pass++)
+            cand -= m_basis_vectors * (m_basis_vectors.transpose() * cand);
+
+        // New vectors that were zero, linearly dependent, or already in the span of the basis
+        // have (nearly) vanished now. An orthogonalization by a plain QR decomposition would
+        // replace them by arbitrary vectors, which can coincide with basis vectors and make
+        // the basis rank deficient. Keep only the numerically independent directions
+        Eigen::ColPivHouseholderQR<Matrix> qr(cand);
+        const Scalar thresh = sqrt(Eigen::NumTraits<Scalar>::epsilon());
+        const Index max_rank = (std::min)((std::min)(cand.cols(), nrows), room);
+        Index rank = 0;
+        while (rank < max_rank && abs(qr.matrixQR()(rank, rank)) > thresh)
+            rank++;
+        if (rank == 0)
+            return;
+
+        Matrix fresh = qr.householderQ() * Matrix::Identity(nrows, rank);
+        fresh -= m_basis_vectors * (m_basis_vectors.transpose() * fresh);
+        QR_orthogonalisation(fresh);
+        append_new_vectors_to_basis(fresh);
     }
 
     /// Returns the basis vectors
